@@ -33,6 +33,23 @@ def dense_stacks(rng, n):
 
         def both(v):
             b.raw("push t %s %s" % (canon, b.r(v)), ("prefix", "idx"), cmp="status", shape="twin")
+        # the stack is not always born by `default()`: with_capacity(n), collect() and merge_capacity size the index
+        # container for n entries — which must not cost heap either as long as the indices stay dense
+        how = rng.below(4)
+        if how == 1:
+            b.raw("x a swithcap %d" % (1 + rng.below(200)), ("eq", "ok"), shape="withcap")
+        elif how == 2:
+            vs = [b.value() for _ in range(1 + rng.below(6))]
+            b.raw("x a sfrom %s [%s]" % (rng.pick(forms_all), ",".join(b.r(v) for v in vs)), ("eq", "ok"), shape="from%d" % len(vs))
+            b.h["a"].vals = list(vs)
+            for v in vs:
+                both(v)
+        elif how == 3:
+            b.new("s0")
+            for _ in range(1 + rng.below(6)):
+                v = b.value()
+                b.push("s0", v, b.form_for(v))
+            b.merge("a", ["s0"])
         for _ in range(3 + rng.below(40)):
             r = rng.below(8)
             if r == 0:
